@@ -95,6 +95,11 @@ var castValues = []castValue{
 	{"nil", "let n: Int8? = nil", "Int8??", "n"}, // a nested nil is the plain nil value
 	{"sm at " + castS, "", "S?", "S()"},
 	{"sm at va p Int", "", "[Int]?", "[1]"},
+	{"sm sm sm at p Int8", "", "Int8???", "1"},
+	{"sm sm at " + castS, "", "S??", "S()"},
+	{"sm sm at va p Int", "", "[Int]??", "[1]"},
+	{"sm sm at p Int8", "let w: Int8?? = 1", "AnyStruct", "w"}, // the static value type is not the run-time type
+	{"sm sm at " + castS, "let w: S?? = S()", "AnyStruct?", "w"},
 	// ephemeral references
 	{"rf u at " + castS, "let s = S()", "&S", "&s"},
 	{"rf c:E at " + castS, "let s = S()", "auth(E) &S", "&s"},
